@@ -47,6 +47,27 @@ def thr_big(arm, reward):
     return 1 if reward > 2 ** 53 + 1 + _rank(arm) else 0
 
 
+def thr_strict(arm, reward):
+    """thr_inside of a careful owner: refuses (ValueError) a negative reward instead of classifying it - a training call whose
+    batch contains one fails inside the library, after whatever ran before the conversion of that reward"""
+    if reward < 0:
+        raise ValueError("negative reward %r for arm %r" % (reward, arm))
+    return thr_inside(arm, reward)
+
+
+thr_strict.reference = thr_inside
+
+
+def inv_strict(arm, reward):
+    """`inverted` of a careful owner (ValueError on a negative reward): not the identity on {0, 1}, so a conversion applied twice shows"""
+    if reward < 0:
+        raise ValueError("negative reward %r for arm %r" % (reward, arm))
+    return inverted(arm, reward)
+
+
+inv_strict.reference = inverted
+
+
 class TableThreshold:
     """a binarizer that is an object, not a function: arm-dependent thresholds looked up in a table its owner extends when a new
     arm appears (the thresholds of known arms never change, so it is one fixed function of (arm, reward)); an arm that is not
@@ -67,7 +88,7 @@ class TableThreshold:
 
 
 TABLE = TableThreshold()
-ALL = {f.__name__: f for f in (thr_inside, thr_half, thr_outside, inverted, nonneg, thr_three, thr_big)}
+ALL = {f.__name__: f for f in (thr_inside, thr_half, thr_outside, inverted, nonneg, thr_three, thr_big, thr_strict, inv_strict)}
 ALL["table"] = TABLE
 
 
